@@ -28,7 +28,9 @@ def save_crash_points(n_prefixes=6):
         old = open(fn).read()
         c.aliases = {"new": P({"AccessoryPairingID": "BB", "Connection": "IP", "k": "new" * 80}), "old": c.aliases["old"]}
         real_open = builtins.open
-        points = ["after-open"] + [f"after-{k}/{n_prefixes}-of-the-text" for k in range(1, n_prefixes)] + ["before-close"]
+        # "at-close": write() only fills the buffer of the text file; the flush that close() performs fails (ENOSPC, I/O
+        # error, power cut) with nothing of the text on disk yet
+        points = ["after-open"] + [f"after-{k}/{n_prefixes}-of-the-text" for k in range(1, n_prefixes)] + ["before-close", "at-close"]
         new_full = None
         for point in points:
             with real_open(fn, "w") as f:
@@ -44,6 +46,8 @@ def save_crash_points(n_prefixes=6):
                 orig_write = f.write
 
                 def write(text):
+                    if point == "at-close":
+                        return len(text)
                     if point == "before-close":
                         orig_write(text)
                         f.flush()
@@ -54,7 +58,7 @@ def save_crash_points(n_prefixes=6):
                     raise SimulatedCrash()
 
                 f.write = write
-                return _Wrap(f, write)
+                return _Wrap(f, write, crash_at_exit=(point == "at-close"))
 
             builtins.open = crashing_open
             try:
@@ -73,14 +77,16 @@ def save_crash_points(n_prefixes=6):
 
 
 class _Wrap:
-    def __init__(self, f, write):
-        self._f, self.write = f, write
+    def __init__(self, f, write, crash_at_exit=False):
+        self._f, self.write, self._crash_at_exit = f, write, crash_at_exit
 
     def __enter__(self):
         return self
 
     def __exit__(self, *a):
         self._f.close()
+        if self._crash_at_exit and a[0] is None:
+            raise SimulatedCrash()
         return False
 
     def __getattr__(self, n):
